@@ -373,10 +373,17 @@ def _parse_multiplier(mult: str, line_i: int) -> Number:
 
 
 def _add_weights(total: Number, weight: Number) -> Number:
+    if isinstance(total, int) and total == 0:
+        # Keep the multiplier as written: 0 + Decimal would round it to the
+        # precision of the current decimal context.
+        return weight
     try:
         return total + weight
     except TypeError:    # Decimal and Fraction do not mix
         return fractions.Fraction(total) + fractions.Fraction(weight)
+    except ArithmeticError as err:
+        raise STVParseError(f'ballot multiplier out of range:'
+                            f' {weight!r}') from err
 
 
 def _load_ordered_votes(lines: Iterable[Tuple[Number, List[str]]],
